@@ -55,10 +55,12 @@ def run(ctx, res):
     # R2 integer literals
     nint = 0
     for b in _fns_in(P, ("crate::tokenizer::", "crate::element_parser::")):
-        for n in T.nodes(b["tree"]):
+        for n, par in T.walk(b["tree"]):
             if n.get("k") == "lit" and n.get("lk") == "int":
                 nint += 1
-                if n["v"][0] in (0, 1):
+                hint = [q for q in par if (q.get("k") == "call" and (T.callee(q) or "").endswith(("::with_capacity", "::reserve"))) or
+                        (q.get("k") == "mcall" and q["name"] in ("reserve", "reserve_exact"))]
+                if n["v"][0] in (0, 1) or hint:        # a capacity hint is not a position
                     res.holds("C18.R2", fshort(b), "int:%d" % n["v"][0])
                 else:
                     res.add(Finding("C18.R2", fshort(b), "int:%d" % n["v"][0], "integer literal %d in position arithmetic of the tokenizer / tag parser: a delimiter or keyword "
